@@ -48,7 +48,7 @@ PROPERTY_RULES: Dict[str, List[str]] = {
     "C14": ["R14", "R11/conn", "R11/raw"],
     "C15": ["R23", "R3/P3b"],
     "C16": ["R1/O2", "R1/O4", "R20/async", "R20/connect", "R20/writers", "R10/gate", "R10/set_data", "R10/get_data", "R17/take", "R17/memory", "R17/writeback"],
-    "C17": ["R3/INIT", "R8", "R2/rt", "R4/wait", "R10/set_event", "R10/run", "R10/rt_check", "R10/R18"],
+    "C17": ["R3/INIT", "R8", "R2/rt", "R4/wait", "R10/set_event", "R10/run", "R10/rt_check", "R10/R18", "R1/O5c", "R1/O5d", "R1/O5e"],
     "C18": ["R24"],
 }
 
